@@ -6,7 +6,8 @@ Key material is bundled files plus CONSTRUCTED keys with structurally special en
 whose public point has a coordinate with 1-2 leading zero bytes (vlib.keymat.ec_special_scalars, every curve; also
 the smallest and largest scalars), random scalars, and 1024-1216 bit RSA keys generated at the start of every run
 and selected so that the DER body length is / is not a multiple of the 16 and 8 byte cipher blocks (the body of a
-passphrase-protected file then ends in a full / partial padding block). Constructed keys are obtained as
+passphrase-protected file then ends in a full / partial padding block), and committed RSA keys whose modulus bit
+length is not a multiple of 8 (sub-pool keys/rsa-oddbits, 1025 ... 2052 bits). Constructed keys are obtained as
 `cryptography` object, from PEM and OpenSSH-format text written by `cryptography`, and from traditional
 encrypted PEM text written by the independent vlib.keymat.legacy_pem_encrypt under each cipher paramiko reads.
 Oracle (every clause of the statement):
@@ -21,9 +22,16 @@ Oracle (every clause of the statement):
     independent verifier; written with a passphrase: loading without one raises PasswordRequiredException,
     with a wrong one raises and never returns a key;
  d. the same passphrase clauses for the bundled passphrase-protected files of all three types;
+ c". passphrase TEXT: writing passphrases include text that is not stable under Unicode normalisation (combining
+    marks composed / decomposed / in non-canonical order, Hangul jamo, canonical singletons OHM / ANGSTROM / CJK
+    compatibility ideographs, composition exclusions, ligatures / fullwidth / superscripts: a fixed table plus drawn
+    base+combining text); such a key must load back with exactly the text it was written with, and a WRONG passphrase
+    may be a canonically (NFC / NFD) or compatibility (NFKC / NFKD) equivalent spelling of the right one - a different
+    string of code points, which must be refused like any other wrong passphrase;
  b'. converse of b with NEAR keys (vlib-independent construction through `cryptography`): a key sharing only part of
-    the public material (EC mirrored point, RSA same n / other e, Ed25519 one bit, ...) is unequal, is not found in a
-    dict keyed by the key, and its own object forms are equal among themselves: a == b <=> public blobs equal;
+    the public material (EC mirrored point, RSA same n / other e, Ed25519 one bit, ...) is unequal - also when it is built so that hash() of each of its numbers EQUALS that of the key's
+    (RSA e and/or n shifted by an even multiple of sys.hash_info.modulus: CPython hashes an int to its value modulo
+    2**61 - 1, so the field tuples collide) -, is not found in a dict keyed by the key, and its own object forms are equal among themselves: a == b <=> public blobs equal;
  c'. histories on one path: 2-3 key files written over each other (other key, other class, passphrase added /
     removed / changed; paramiko's writer or the harness, in place or by rename), each loaded back immediately by
     file name - the load must give the key just written, and respect the passphrase just set;
@@ -35,6 +43,8 @@ import hashlib
 import io
 import os
 import stat
+import sys
+import unicodedata
 
 from hypothesis import strategies as st
 
@@ -48,15 +58,20 @@ RULE = (
     "hypothesis draws key material (27 bundled private key files of RSA 1024/2048, ECDSA P-256/384/521 and Ed25519, "
     "plain and passphrase-protected, PEM and OpenSSH container; ECDSA scalars: random, and constructed ones whose public "
     "x or y has 1-2 leading zero bytes / smallest / largest, every curve; RSA 1024-1216 generated in every run and selected "
-    "by DER length mod 16 and mod 8 (full vs partial final padding block); in thorough also RSAKey.generate 1024-4096), "
+    "by DER length mod 16 and mod 8 (full vs partial final padding block); 10 committed RSA keys whose modulus bit length is not "
+    "a multiple of 8 (1025 ... 2052 bits); in thorough also RSAKey.generate 1024-4096), "
     "object provenance (file, file object, cryptography object, +certificate; constructed keys: PEM text, OpenSSH-format "
     "text, traditional encrypted PEM under AES-128-CBC/AES-256-CBC/DES-EDE3-CBC from an independent writer), a writing passphrase "
-    "(none, ascii, unicode incl. astral, long, whitespace, empty), a wrong passphrase (none, empty, prefix, case-changed, "
-    "other, bytes form), target path new or pre-existing (0644/0600/0666, longer content), umask 0/0o022/0o077 and a "
+    "(none, ascii, unicode incl. astral, long, whitespace, empty; text that is NOT stable under NFC / NFD / NFKC / NFKD: 14 "
+    "tabulated strings - combining marks, marks in non-canonical order, Hangul jamo, OHM / ANGSTROM / CJK-compatibility singletons, "
+    "composition exclusions, ligature / fullwidth / superscript - and drawn base+combining-mark text), a wrong passphrase (none, "
+    "empty, prefix, case-changed, other, suffix, a canonically or compatibility equivalent spelling of the right one (its NFC / NFD / "
+    "NFKC / NFKD form when that differs), bytes form), target path new or pre-existing (0644/0600/0666, longer content), umask 0/0o022/0o077 and a "
     "second key for the inequality clause; a NEAR key for the converse of the equality clause (a == b <=> public blobs equal): "
     "built with cryptography from the reference key so that it shares part of the public material - ECDSA mirrored point "
     "(same x, y' = p - y: scalar n - d), neighbouring scalar, same scalar on another curve; RSA same n with another e (valid "
-    "private key, d' recomputed), same e with one bit of n flipped, e and n swapped; Ed25519 one bit flipped / bytes rotated - "
+    "private key, d' recomputed), same e with one bit of n flipped, e and n swapped, e and / or n plus an even multiple of sys.hash_info.modulus "
+    "(hash() of every number, hence of the field tuple, EQUALS the key's while the public bytes differ); Ed25519 one bit flipped / bytes rotated - "
     "as public-only and (where a private key exists) private objects; and a HISTORY of 2-3 key files on ONE path (who: the "
     "key / the other key / the near key, which may be of another class; passphrase none or one of four; written by "
     "write_private_key_file, or by the harness in place / by rename), every step loaded back at once through "
@@ -76,7 +91,7 @@ def _kid(keyid):
 
 def key_class(keyid):
     if isinstance(keyid, str):
-        return K.spec(keyid).cls
+        return KM.spec(keyid).cls
     return {"ec": "ECDSAKey", "rsapem": "RSAKey"}[keyid[0]]
 
 
@@ -84,7 +99,7 @@ def ref_private(keyid):
     k = ("ref", _kid(keyid))
     if k not in _cache:
         if isinstance(keyid, str):
-            _cache[k] = K.spec(keyid).ref_private()
+            _cache[k] = KM.spec(keyid).ref_private()
         elif keyid[0] == "ec":
             from cryptography.hazmat.primitives.asymmetric import ec
 
@@ -152,7 +167,7 @@ def get_obj(keyid, prov):
     import paramiko
 
     cls = getattr(paramiko, key_class(keyid))
-    sp = K.spec(keyid) if isinstance(keyid, str) else None
+    sp = KM.spec(keyid) if isinstance(keyid, str) else None
     if prov == "file":
         obj = cls.from_private_key_file(sp.path, sp.password)
     elif prov == "fileobj":
@@ -225,13 +240,16 @@ def keyids(draw):
         return ["ec", curve, draw(st.sampled_from(KM.ec_special_scalars(curve)))]
     if cls == "RSAKey" and kind in (0, 1, 2) and _extra_keys:
         return draw(st.sampled_from(_extra_keys))
+    if cls == "RSAKey" and kind == 3:
+        # committed sub-pool: modulus bit length not a multiple of 8 (1025 ... 2052 bits, every residue 1..7)
+        return draw(st.sampled_from([sp.name for sp in KM.subpool_specs("odd")]))
     return draw(st.sampled_from(by[cls]))
 
 
 def material_classes(keyid):
     """Evidence classes describing the structure of the key material (computed from the reference key)."""
     if isinstance(keyid, str):
-        out = ["key:bundled"]
+        out = ["key:bundled"] if not keyid.startswith("odd:") else ["key:rsa-modulus-bits-mod8=%d" % (ref_public(keyid).bits % 8)]
     elif keyid[0] == "ec":
         lx, ly = KM.ec_coord_shape(ref_private(keyid).public_key())
         d = int(keyid[2])
@@ -247,9 +265,51 @@ def material_classes(keyid):
     return out
 
 
+# Passphrase text that is NOT stable under a Unicode normalisation form (the passphrase is a byte string to the
+# cipher: two texts that merely look alike / are canonically equivalent are different passphrases). Each entry changes
+# under at least one of NFC / NFD / NFKC / NFKD; pass_classes() computes which ones with unicodedata.
+UNSTABLE_PASS = [
+    "cafe\u0301",  # base letter + combining acute: NFC composes
+    "e\u0301te\u0301 \u00e9t\u00e9",  # the same word decomposed and composed: every form changes it
+    "\u2126 ohm",  # OHM SIGN: canonical singleton (NFC and NFD give GREEK CAPITAL OMEGA)
+    "\u212bngstr\u00f6m",  # ANGSTROM SIGN singleton + a composed letter
+    "\u1112\u1161\u11ab\u1100\u1173\u11af",  # conjoining Hangul jamo: NFC composes syllables
+    "\ud55c\uae00",  # composed Hangul syllables: NFD decomposes
+    "\ufa0a\u898b",  # CJK compatibility ideograph: canonical singleton
+    "q\u0307\u0323",  # two combining marks in non-canonical order: NFC / NFD reorder
+    "\u0958\u0915\u093c",  # composition exclusion: NFC DEcomposes the first character
+    "A\u030a\u00c5\u212b",  # three spellings of one letter
+    "\ufb01sh \uff50\uff57 x\u00b2",  # ligature, fullwidth, superscript: only the compatibility forms change
+    "\u00e9t\u00e9",  # composed (NFC-stable): NFD / NFKD decompose
+    "\u1e9b\u0323",  # LONG S WITH DOT ABOVE + dot below: NFC, NFD, NFKC, NFKD all differ from one another
+    "\u03d2\u0301 \u0385",  # hooked upsilon + tonos; dialytika tonos
+]
+_COMBINING = "\u0300\u0301\u0302\u0303\u0308\u030a\u0323\u0327\u0328\u0338\u093c\u3099\u309a\u05bc\u0653"
+_BASES = "aeinouyAEO cs<=\u00e9\u00fc\u0915\u304b\u306f\u05d1\u0627\u2126\u212b\u1100\u1161\u11a8\ufb01\u00b5"
+unstable_text = st.text(alphabet=st.sampled_from(_BASES + _COMBINING + _COMBINING), min_size=2, max_size=8).filter(
+    lambda t: any(unicodedata.normalize(f, t) != t for f in NORMAL_FORMS)
+)
+NORMAL_FORMS = ["NFC", "NFD", "NFKC", "NFKD"]
+
+
+def pass_classes(pw):
+    """Evidence classes of a writing passphrase: which normalisation forms change it."""
+    if not pw or not isinstance(pw, str):
+        return []
+    forms = [f for f in NORMAL_FORMS if unicodedata.normalize(f, pw) != pw]
+    out = ["pass-unstable-under:" + f for f in forms]
+    if forms:
+        out.append("pass:not-normalisation-stable")
+    elif any(ord(ch) > 127 for ch in pw):
+        out.append("pass:non-ascii-normalisation-stable")
+    return out
+
+
 passphrases = st.one_of(
     st.none(),
     st.none(),
+    st.sampled_from(UNSTABLE_PASS),
+    unstable_text,
     st.sampled_from(["television", "a", " ", "  tab\tand space ", "pass word", "x" * 200, "éèüß", "密码", "\U0001f511key", ""]),
     st.text(alphabet=st.characters(min_codepoint=0x20, max_codepoint=0x7E), min_size=1, max_size=20),
     st.text(min_size=1, max_size=12),
@@ -260,10 +320,10 @@ passphrases = st.one_of(
 # `cryptography` from the reference private key, never by paramiko)
 NEAR_KINDS = {
     "ECDSAKey": ["ec-negate", "ec-negate", "ec-neighbour", "ec-other-curve"],
-    "RSAKey": ["rsa-same-n-other-e", "rsa-same-n-other-e", "rsa-same-e-n-bit", "rsa-swapped-e-n"],
+    "RSAKey": ["rsa-same-n-other-e", "rsa-same-n-other-e", "rsa-same-e-n-bit", "rsa-swapped-e-n", "rsa-n-hash-collide", "rsa-e-hash-collide", "rsa-both-hash-collide"],
     "Ed25519Key": ["ed-bit", "ed-bit", "ed-byte-rotated"],
 }
-HIST_PASS = [None, None, "television", "hist pass \u00e9", "x", "Television"]
+HIST_PASS = [None, None, "television", "hist pass \u00e9", "x", "Television", "hist pa\u0323\u0307ss e\u0301 \u2126"]
 HIST_WRITERS = ["paramiko", "paramiko", "external-truncate", "external-replace"]
 hist_step = st.tuples(st.sampled_from(["key", "other", "key", "near"]), st.sampled_from(HIST_PASS), st.sampled_from(HIST_WRITERS)).map(list)
 
@@ -279,7 +339,7 @@ def cases(draw, fixed_key=None):
         "key": key,
         "prov": prov,
         "pass": draw(passphrases),
-        "wrong": draw(st.sampled_from(["none", "empty", "prefix", "case", "other", "suffix"])),
+        "wrong": draw(st.sampled_from(["none", "empty", "prefix", "case", "other", "suffix", "canonical", "compatible"])),
         "wrong_bytes": draw(st.booleans()),
         "right_bytes": draw(st.booleans()),
         "write_via": draw(st.sampled_from(["file", "file", "fileobj"])),
@@ -296,6 +356,14 @@ def wrong_pass(right, kind):
         return None
     if kind == "empty":
         return ""
+    if kind in ("canonical", "compatible"):
+        # another text that is canonically / compatibility EQUIVALENT to the right one (a normal form of it): it is a
+        # different string of code points, hence a wrong passphrase. Stable text has none: falls back to "suffix".
+        for form in ("NFC", "NFD") if kind == "canonical" else ("NFKC", "NFKD"):
+            w = unicodedata.normalize(form, right)
+            if w != right:
+                return w
+        kind = "suffix"
     if kind == "prefix":
         return right[:-1] if len(right) > 1 else right + "x"
     if kind == "suffix":
@@ -363,6 +431,21 @@ def near_key(keyid, kind, aux):
         elif kind == "rsa-same-e-n-bit":
             bit = 1 + aux % (n.bit_length() - 2)  # stays odd, keeps its length
             out = {"blob": R.string(b"ssh-rsa") + R.mpint(e) + R.mpint(n ^ (1 << bit)), "name": "ssh-rsa", "priv": None, "genuine": False, "shares": "e+most-of-n"}
+        elif kind.endswith("-hash-collide"):
+            # a different key whose numbers have the same Python hash() as the key's: hash(int) is the value modulo
+            # sys.hash_info.modulus (2**61 - 1 on 64-bit CPython), so adding an even multiple of it keeps hash and
+            # parity. a == b <=> same public material must hold exactly where a digest of the material collides.
+            step = 2 * sys.hash_info.modulus * (1 + aux % 5)
+            e2 = e + step if kind != "rsa-n-hash-collide" else e
+            n2 = n + step * (1 + aux % 3) if kind != "rsa-e-hash-collide" else n
+            collides = hash((e2, n2)) == hash((e, n))
+            out = {
+                "blob": R.string(b"ssh-rsa") + R.mpint(e2) + R.mpint(n2),
+                "name": "ssh-rsa",
+                "priv": None,
+                "genuine": False,
+                "shares": "the hash() of every number (congruent modulo sys.hash_info.modulus)" if collides else "most of the numbers",
+            }
         else:  # the two numbers in the other order
             out = {"blob": R.string(b"ssh-rsa") + R.mpint(n) + R.mpint(e), "name": "ssh-rsa", "priv": None, "genuine": False, "shares": "the-set-of-numbers"}
     elif kind.startswith("ed-"):
@@ -523,7 +606,7 @@ def execute(ctx, c):
     cls_name = key_class(c["key"])
     cls = getattr(paramiko, cls_name)
     ref = ref_public(c["key"])
-    sp = K.spec(c["key"]) if isinstance(c["key"], str) else None
+    sp = KM.spec(c["key"]) if isinstance(c["key"], str) else None
     writes = cls_name != "Ed25519Key"
     protected = bool(c["pass"]) if writes else bool(sp and sp.password)
     nontrivial = protected or c["prov"] == "file+cert" or c["prov"] in ENC_PROVS or (writes and c["umask"] != 0o077)
@@ -533,6 +616,10 @@ def execute(ctx, c):
         classes.append("near:" + c["near"][0])
     if "history" in c:
         classes += history_classes(c)
+    if writes:
+        classes += pass_classes(c["pass"])
+        if c["pass"] and c["wrong"] in ("canonical", "compatible") and wrong_pass(c["pass"], c["wrong"]) != wrong_pass(c["pass"], "suffix"):
+            classes.append("wrong:%s-equivalent-of-the-right-one" % c["wrong"])
     if writes and c["pass"]:
         classes.append("written-protected:" + [x for x in classes if x.startswith(cls_name + "-der:")][0])
     ctx.case(c, nontrivial, classes)
@@ -710,8 +797,8 @@ def _hist_material(c, who, cls_name, k, ref):
             return cls_name, dict(near_objects(cls_name, nk))["object"], K.RefPub.from_crypto(nk["priv"].public_key()), None, "near"
         who = "other"
     if who == "other":
-        return key_class(c["other"]), obtain(c["other"], c["oprov"]), ref_public(c["other"]), (K.spec(c["other"]) if isinstance(c["other"], str) else None), "other"
-    return cls_name, k, ref, (K.spec(c["key"]) if isinstance(c["key"], str) else None), "key"
+        return key_class(c["other"]), obtain(c["other"], c["oprov"]), ref_public(c["other"]), (KM.spec(c["other"]) if isinstance(c["other"], str) else None), "other"
+    return cls_name, k, ref, (KM.spec(c["key"]) if isinstance(c["key"], str) else None), "key"
 
 
 def history_classes(c):
